@@ -253,7 +253,7 @@ def message_keys(spec, s, m):
 
 def spec_clean(spec):
     """no two things of the application share a name: distinct primary public names, distinct
-    message class names, distinct (module, service name) identities, distinct function identities.
+    message class names, distinct (module, service name) identities, distinct internal keys.
     Such an application must construct, in every order of its services."""
     if not spec_valid(spec):
         return False
@@ -262,6 +262,11 @@ def spec_clean(spec):
         return False
     ident = [(s['module'] + '.' + (s.get('service_name') or s['cls'])) for s in spec['services']]
     if len(set(ident)) != len(ident):
+        return False
+    # within one service identity the internal keys (function name + _internal_key_suffix) are distinct
+    ikeys = [s['module'] + '.' + (s.get('service_name') or s['cls']) + '}' + m['fn'] + (m.get('suffix') or '')
+             for s, m in spec_methods(spec)]
+    if len(set(ikeys)) != len(ikeys):
         return False
     # one service (identity) cannot hold two methods of one public name, primary or auxiliary
     mids = [s['module'] + '.' + (s.get('service_name') or s['cls']) + '.' + public_name(m) for s, m in spec_methods(spec)]
@@ -855,28 +860,45 @@ def run(check):
     check.rule = ('generated applications: 1-5 services x 1-4 methods, public names drawn from case / prefix / suffix / '
                   'separator variants of 1-3 base names, given through the function name, _operation_name or '
                   '_in_message_name (plain or {ns}-qualified), auxiliary services fanning out on primary names, bare and '
-                  'wrapped bodies, HttpPatterns; "clean" mode (no shared names: must build in every order) and "dirty" mode '
-                  '(collisions likely); every permutation of the service list up to 4 services (24 sampled of 120 for 5); '
-                  'requests: every registered name and its near misses through HttpRpc URL path and HttpPattern, XmlDocument '
-                  'root tag, Soap11 body child, JsonDocument / MessagePackDocument single key, MessagePackRpc method field. '
+                  'wrapped bodies, HttpPatterns; "clean" mode (no shared names: must build in every order), "dirty" mode '
+                  '(collisions of every kind likely) and "patty" mode (most methods carry HttpPatterns drawn from few '
+                  'addresses: overlaps, ties in the server\'s sort, now and then the same pattern on two methods); 19+ fixed '
+                  'boundary applications (theorem witnesses, every defect found on the pinned tree); every permutation of '
+                  'the service list up to 4 services (24 sampled of 120 for 5), each built with Application(...) and then '
+                  'WsgiApplication(app); requests: every registered name and its near misses (case, prefix, suffix, '
+                  'separator, blank, other namespace, doubly qualified) through HttpRpc URL path and HttpPattern, XmlDocument '
+                  'root tag, Soap11 body child, JsonDocument / MessagePackDocument single key, MessagePackRpc method field; '
+                  'applications with overlapping patterns are rebuilt several times in two service orders and a request '
+                  'that tells two pattern orders apart is driven through both servers. '
                   'A case is distinct by (application spec in its service order) for constructions and by '
                   '(application, protocol, request) for requests.')
     check.trusted = list(lib.COMMON_TRUSTED) + [
         'the spec -> real Spyne application builder in harness/c11.py (ServiceMeta(...) with generated @srpc functions '
         'that append their uid to a log) and its Gallina printer',
         'modelled, not verified: lxml element .tag in Clark notation, json/msgpack decoding of the single key, '
-        're full-match of an HttpPattern address restricted to literal characters and <name> placeholders, literal verbs',
+        're full-match of an HttpPattern address restricted to literal characters and <name> placeholders, literal verbs, '
+        'Python str comparison as lexicographic comparison of code points (the server\'s sort)',
+        'harness/translate/routekeys.py: the statement-for-statement skeletons of process_method, get_call_handles, '
+        'generate_method_contexts, the gen_method_request_string / decompose_incoming_envelope naming sites, '
+        'check_unique_method_keys, HttpBase.__init__ and match_pattern mean what coq/C11/Model.v says; the extracted '
+        'tokens (six \'{%s}%s\' formats, the \'{\' prefix, the insert index, the split separator and index) are '
+        'proved to render the model\'s strings (Props.C11_src)',
         'the oracle\'s reading of the property: public name = local part of _in_message_name, else _operation_name, else '
-        'the function name; HttpPattern routes take precedence over the last-URL-segment route (match_pattern docstring)',
+        'the function name; HttpPattern routes take precedence over the last-URL-segment route (match_pattern docstring); '
+        'a request matching the HttpPatterns of several methods must run exactly one of them (which one is the '
+        'server\'s documented order, required to be the same in every listing and every construction)',
     ]
     check.assumptions = [
         'services expose @srpc/@rpc functions only (no @mrpc member methods, no in/out headers, no declared faults)',
-        'message and parameter class names do not live in the XSD namespace; HttpPattern host is None; address patterns '
-        'use only literal [A-Za-z0-9_/-] and <name> placeholders; verbs are literals',
-        'the order HttpBase gives to patterns with EQUAL address is the iteration order of a Python set and is not '
-        'modelled: the model is given the observed order and checks it is a descending-by-address arrangement of the '
-        'patterns it computed; theorem C11_http_unambiguous covers exactly the requests for which that order is irrelevant',
+        'message and parameter class names do not live in the XSD namespace; HttpPattern host is None (a host pattern '
+        'cannot be constructed on Python 3: _compile_host_pattern mixes bytes and str); explicitly given address '
+        'patterns use only literal [A-Za-z0-9_/-] characters and <name> placeholders; verbs are non-empty literals',
+        'C11_permutation_served (same pattern order, same handlers for every request, in every listing) assumes that '
+        'auxiliary methods carry no HttpPatterns: a route made of auxiliary methods only takes the patterns of '
+        'whichever of them was listed first (modelled and exercised by the correspondence, fixed application '
+        '"aux-with-pattern"; the property does not say what an auxiliary method\'s pattern means)',
         'SyncAuxProc is the auxiliary processor (ThreadAuxProc runs the same contexts on a thread pool)',
+        'requests go through WsgiApplication; the response protocol is JsonDocument (Soap11 for Soap11 requests)',
     ]
     check.regen(['routekeys'])
     check.check_sources()
